@@ -87,6 +87,7 @@ func (e *Eng) obligations() {
 	// ---- C09: ParseNDStream result plumbing
 	e.ndstream()
 	e.ndstreamChunks()
+	e.automaton()
 
 	// ---- C16: who reads Message
 	e.messageReaders()
